@@ -487,6 +487,50 @@ fn configuration_scenarios(rep: &Report) {
     }
     rep.count("large_entry_scenarios", 1);
     rep.distinct(Fnv::new().str("large-entries").finish());
+    // (iii) a full queue whose join handle is being dropped (the writer is still held, so the
+    // shutdown drain has not happened) while another thread keeps appending: those appends still
+    // displace entries the drain would have written, and every displacement is counted
+    for (capacity, extra) in [(4usize, 4u32), (1, 3), (16, 40)] {
+        rep.eval();
+        let sh = StreamShared::new(3);
+        sh.set_fuel(Some(0));
+        let counts = Arc::new(Counts::default());
+        let (q, h) = BackgroundQueueBuilder::new()
+            .capacity(capacity)
+            .flush_interval(Duration::from_micros(100))
+            .metrics_recorder_local::<dyn metrics::Recorder, _>(CountingRecorder(counts.clone()))
+            .build::<IdEntry>(sh.stream());
+        q.append(IdEntry::new(0, 0));
+        let _ = progress_wait(|| sh.blocked_next.load(Ordering::SeqCst), default_stall());
+        for s in 1..=capacity as u32 {
+            q.append(IdEntry::new(0, s));
+        }
+        let stores_before = vcommon::sync::hook_hits().into_iter().find(|x| x.0 == "bq.handle_drop.after_store").map(|x| x.1).unwrap_or(0);
+        let dropper = std::thread::spawn(move || h.shut_down());
+        if vcommon::sync::hooks_compiled_in() {
+            let _ = progress_wait(|| vcommon::sync::hook_hits().into_iter().find(|x| x.0 == "bq.handle_drop.after_store").map(|x| x.1).unwrap_or(0) > stores_before, Duration::from_secs(5));
+        } else {
+            std::thread::sleep(Duration::from_millis(50));
+        }
+        for s in 0..extra {
+            q.append(IdEntry::new(0, capacity as u32 + 1 + s));
+        }
+        let appended = 1 + capacity as u64 + extra as u64;
+        sh.open_all();
+        let _ = dropper.join();
+        let delivered = sh.log().iter().filter(|e| e.id().is_some()).count() as u64;
+        let overflows = counts.counter("metrique_queue_overflows");
+        if delivered + overflows != appended {
+            rep.violation(
+                "conservation",
+                json!({"what": "appends racing with a shutdown whose drain has not happened yet (writer held): appended = written + counted as overflow",
+                       "capacity": capacity, "appended": appended, "written": delivered, "overflow_counter": overflows, "unaccounted": appended as i64 - delivered as i64 - overflows as i64}),
+            );
+            return;
+        }
+        rep.count("appends_during_shutdown_scenarios", 1);
+        drop(q);
+    }
 }
 
 fn native_main(args: &Args, rep: &Report) {
